@@ -45,6 +45,8 @@ structure State where
   dom : DomState
   /-- `_minmax_preds` in append order -/
   mm : List MMPred
+  /-- `input_predicates` -/
+  inputs : List Pred := []
 
 abbrev M := StateT State (Except String)
 
@@ -176,8 +178,9 @@ def pushMM (f : AggFun) (tm : TransMap) (maxVar : String) (args : List Term) : M
 def storeHead (prg : Prog) (f : AggFun) (head : Head) (restVars : List Term) (maxVar : String) (newName : String) :
     M Unit :=
   match head with
-  | .lit (_, .sym (.fn name args _)) =>
-    if getBodiesCount prg ⟨name, args.length⟩ != 1 then pure ()
+  | .lit (_, .sym (.fn name args _)) => do
+    let st ← get
+    if getBodiesCount prg ⟨name, args.length⟩ != 1 || st.inputs.contains ⟨name, args.length⟩ then pure ()
     else if args.any fun a => !isVarOrSym a then pure ()
     else if restVars.any fun v => !args.contains v then pure ()
     else
@@ -205,6 +208,16 @@ def splitBody (agg : BLit) (inside gv : VSet) : List BLit → List BLit × List 
       let bv := vInter (vOfList b.vars) gv
       if !(vInter bv inside).isEmpty then (b :: w, wo, vUnion bv rv) else (w, b :: wo, rv)
 
+/-- `UniqueVariables(x).make_unique(PREV)`, `.make_unique(NEXT)`: two variables `x` does not use
+(fix recorded in known_findings.json `fixed:`, finding D7: the names were hard-wired) -/
+def neighbours (vars : List String) : Term × Term :=
+  match (⟨vars⟩ : UniqueVars).makeUnique "__PREV" with
+  | some (p, u) =>
+    match u.makeUnique "__NEXT" with
+    | some (n, _) => (.var p, .var n)
+    | none => (.var p, NEXT)
+  | none => (PREV, NEXT)
+
 /-- `_create_aggregate_replacement(agg, elem, rest_vars, new_predicate, lits_with_vars)` -/
 def createAggregateReplacement (isMax : Bool) (cond : List Lit) (weight : Term) (restVars : List Term)
     (newPred : Pred) (litsWith : List BLit) : M (List Stm) := do
@@ -222,6 +235,7 @@ def createAggregateReplacement (isMax : Bool) (cond : List Lit) (weight : Term) 
   let nextP ← liftDom fun d => nextAnon d anon 0
   let chainName := chainP.name
   let auxRule : Stm := .rule 1 1 (.lit (posLit chainName (restVars ++ [weight]))) (cond.map BLit.lit ++ litsWith)
+  let (PREV, NEXT) := neighbours (restVars.flatMap Term.vars)
   let prevAgg := if isMax then PREV else NEXT
   let nextAgg := if isMax then NEXT else PREV
   let nextLit : Lit := posLit nextP.name [PREV, NEXT]
@@ -281,6 +295,10 @@ def chainTranslation (prg : Prog) (stm : Stm) (agg : AggLit) : M (List Stm) :=
         | _ => rv
       let restVars : List Term := (sortNames rv).map Term.var
       let conds : List BLit := elem.2.map BLit.lit ++ litsWith
+      -- fix (known_findings.json `fixed:`): the chain rules consist of the element's condition and the joined literals; they
+      -- have to bind their variables and the shared ones
+      let (bnd, unb) ← liftE (bindingBody conds)
+      if !unb.isEmpty || rv.any (fun v => !bnd.contains v) then return [stm]
       liftDom fun d => do
         let d' ← addDomainRule d newPred [(.fn newName [weight] false, conds)]
         pure ((), d')
@@ -328,7 +346,7 @@ def firstLoop (prg : Prog) : List Stm → M (List Stm)
 /-- `MinMaxAggregator(prg, input_predicates)` -/
 def initState (prg : Prog) (inputs : List Pred) : Except String State := do
   let d ← DomState.init (UniqueNames.init prg inputs) prg
-  pure ⟨d, []⟩
+  pure ⟨d, [], inputs⟩
 
 /-- which branch `_process_rule` takes (for the histogram of the correspondence; not part of the result) -/
 def branchOf (st : DomState) (stm : Stm) : String :=
@@ -382,10 +400,10 @@ def translateParameters (mapping : List (Option Nat)) (arguments : List Term) : 
   go mapping arguments []
 
 /-- the two replacement (weight, terms, conditions) triples of `_create_replacement`; `oldArgs` are
-`oldmax.atom.symbol.arguments`.  NB `idx` is a position in the OLD predicate but is used on the NEW argument
-list. -/
-def createReplacement (mp : MMPred) (minimize : Bool) (terms : List Term) (oldArgs : List Term) :
+`oldmax.atom.symbol.arguments`. -/
+def createReplacement (nb : Term × Term) (mp : MMPred) (minimize : Bool) (terms : List Term) (oldArgs : List Term) :
     M (List (Term × List Term × List Lit)) := do
+  let (PREV, NEXT) := nb
   let negateIf : Term → Term := fun x => if minimize then x else .un .minus x
   let isMax := mp.fn == .max
   let prev := if isMax then PREV else NEXT
@@ -396,7 +414,12 @@ def createReplacement (mp : MMPred) (minimize : Bool) (terms : List Term) (oldAr
   let chainName := chainP.name
   let terms1 := Term.fn chainName [PREV, NEXT] false :: terms
   let newargs ← liftE (translateParameters mp.tm.mapping oldArgs)
-  let newargs := (List.range newargs.length).zip newargs |>.map fun (i, x) => if i == mp.idx then some next else x
+  -- fix (known_findings.json `fixed:`): `idx` is a position in the old predicate, the mapping gives the one in the new
+  let newidx ← liftE (match mp.tm.mapping[mp.idx]? with
+    | some (some j) => (pure j : Except String Nat)
+    | some none => .error "py: TypeError: the result has no position in the new predicate"
+    | none => .error "py: IndexError: mapping[idx]")
+  let newargs := (List.range newargs.length).zip newargs |>.map fun (i, x) => if i == newidx then some next else x
   let newargs ← liftE (newargs.mapM fun x => match x with
     | some t => (pure t : Except String Term)
     | none => .error "assert: isinstance(arg, AST)")
@@ -482,12 +505,12 @@ def replaceInMinimize (ret : Prog) (stm : Stm) : M (List Stm) :=
               if !vSubset oldVars termVars then pure [stm]
               else do
                 let args ← liftE (oldmaxArgs om)
-                let reps ← createReplacement mp minimize ts args
+                let reps ← createReplacement (neighbours stm.vars) mp minimize ts args
                 pure (reps.map fun (wt, tms, conds) => Stm.minimize 1 1 wt p tms (conds.map BLit.lit ++ restCond))
   | _ => throw "assert: stm.ast_type == ASTType.Minimize"
 
 /-- `_replace_results_in_sum_agg_elem(elem, rest_elems)` -/
-def replaceInSumElem (elem : BAggElem) (restElems : List BAggElem) : M (List BAggElem) :=
+def replaceInSumElem (nb : Term × Term) (elem : BAggElem) (restElems : List BAggElem) : M (List BAggElem) :=
   match elem.1 with
   | [] => throw "py: IndexError: term_tuple[0]"
   | w :: restTerms => do
@@ -522,14 +545,14 @@ def replaceInSumElem (elem : BAggElem) (restElems : List BAggElem) : M (List BAg
           if !vSubset oldVars termVars then pure [elem]
           else do
             let args ← liftE (oldmaxArgs (.lit om))
-            let reps ← createReplacement mp minimize restTerms args
+            let reps ← createReplacement nb mp minimize restTerms args
             pure (reps.map fun (wt, tms, conds) => (wt :: tms, conds ++ restCond))
 
-def replaceInSumElems (all : List BAggElem) : List BAggElem → M (List BAggElem)
+def replaceInSumElems (nb : Term × Term) (all : List BAggElem) : List BAggElem → M (List BAggElem)
   | [] => pure []
   | e :: es => do
-    let r ← replaceInSumElem e (all.filter fun x => !SumAgg.elemEq x e)
-    let rs ← replaceInSumElems all es
+    let r ← replaceInSumElem nb e (all.filter fun x => !SumAgg.elemEq x e)
+    let rs ← replaceInSumElems nb all es
     pure (r ++ rs)
 
 def isSumAggLit : BLit → Bool
@@ -537,17 +560,17 @@ def isSumAggLit : BLit → Bool
   | _ => false
 
 /-- the body loop of `_replace_results_in_sum` -/
-def replaceInSumBody : List BLit → M (List BLit)
+def replaceInSumBody (nb : Term × Term) : List BLit → M (List BLit)
   | [] => pure []
   | b :: bs => do
     let b' ← (match b with
       | .lit (s, .bagg _ _ lg f elems rg) =>
         if f == .sum || f == .sump then do
-          let es ← replaceInSumElems elems elems
+          let es ← replaceInSumElems nb elems elems
           pure (BLit.lit (s, .bagg 1 1 lg f es rg))
         else pure b
       | _ => pure b : M BLit)
-    let bs' ← replaceInSumBody bs
+    let bs' ← replaceInSumBody nb bs
     pure (b' :: bs')
 
 /-- `_replace_results_in_x(prg, minimizes)`; `minimizes` are the objectives of `prg` grouped by tuple -/
@@ -558,7 +581,7 @@ def replaceResultsInX (ret : Prog) : List Stm → M (List Stm)
       | .minimize .. => replaceInMinimize ret s
       | .rule _ _ h body =>
         if body.any isSumAggLit then do
-          let b ← replaceInSumBody body
+          let b ← replaceInSumBody (neighbours s.vars) body
           pure [Stm.rule 1 1 h b]
         else pure [s]
       | _ => pure [s] : M (List Stm))
